@@ -2,8 +2,8 @@ package main
 
 // Property C17, the pairwise behavioural check: the SAME portable history (paths given as lists of component
 // names, spelled for each file system with its own vfs.Join(root, components...)) is run on
-//   memfs/linux, memfs/windows   -> <name>.cases / <name>.observed  (also compared with the Coq model)
-//   orefafs/linux, orefafs/windows -> <name>.orefa.cases / <name>.orefa.observed
+//   memfs/linux, memfs/windows, orefafs/linux, orefafs/windows  (four consecutive lines of <name>.cases / .observed,
+//   each also compared with the Coq model of its file system)
 // in the line syntax of the `ostype` stream with snapshot mode `norm`; bin/check compares the lines of one
 // history pairwise (success/failure of every call and the normalised tree after it).
 // Two generators: a breadth-first search over distinct tree states with every template call in each state,
@@ -11,11 +11,9 @@ package main
 // A third command, `ostypevol`, enumerates every sequence of volume calls up to a depth over three volume names.
 
 import (
-	"bufio"
 	"fmt"
 	"io/fs"
 	"os"
-	"path/filepath"
 	"sort"
 	"strings"
 
@@ -176,32 +174,16 @@ func pairCalls(es []pent) []string {
 
 type pairOut struct {
 	o         *out
-	orefaC    *bufio.Writer
-	orefaO    *bufio.Writer
-	fc, fo    *os.File
 	nOrefa    int
 	deadlocks int
-	refState  func() string
 }
 
 func newPairOut(cfg config) *pairOut {
 	p := &pairOut{o: newOut(cfg.dir, cfg.name)}
-	var err error
-	if p.fc, err = os.Create(filepath.Join(cfg.dir, cfg.name+".orefa.cases")); err != nil {
-		panic(err)
-	}
-	if p.fo, err = os.Create(filepath.Join(cfg.dir, cfg.name+".orefa.observed")); err != nil {
-		panic(err)
-	}
-	p.orefaC, p.orefaO = bufio.NewWriterSize(p.fc, 1<<20), bufio.NewWriterSize(p.fo, 1<<20)
 	return p
 }
 
 func (p *pairOut) close(name string) {
-	p.orefaC.Flush()
-	p.orefaO.Flush()
-	p.fc.Close()
-	p.fo.Close()
 	p.o.close(name)
 }
 
@@ -210,21 +192,18 @@ func (p *pairOut) history(um int, ops []string, key string) string {
 	var ref string
 	for _, c := range pairConfigs {
 		line, obs := runPairConfig(c[0], c[1], um, ops, c[0] != "memfs" && p.deadlocks >= 8)
-		if c[0] == "memfs" {
-			p.o.emit(line, obs, key+"/"+c[1])
-			if c[1] == "linux" {
-				ref = obs
-			}
-		} else {
+		if c[0] != "memfs" {
 			if p.deadlocks >= 8 {
 				// an OrefaFS that hangs (every hang costs the 3 s detection delay) is not explored further
 				obs = "SKIPPED"
 			} else if strings.HasSuffix(obs, "DEADLOCK #-") || strings.HasSuffix(obs, "DEADLOCK") {
 				p.deadlocks++
 			}
-			p.orefaC.WriteString(line + "\n")
-			p.orefaO.WriteString(obs + "\n")
 			p.nOrefa++
+		}
+		p.o.emit(line, obs, key+"/"+c[0]+c[1])
+		if c[0] == "memfs" && c[1] == "linux" {
+			ref = obs
 		}
 	}
 	return ref
@@ -331,7 +310,7 @@ func runOSTypePair(cfg config) {
 		p.history(um, ops, "")
 	}
 	o.rule = fmt.Sprintf("portable histories (paths = lists of component names over {a,b,tmp,x,y}, spelled per file system by vfs.Join(root, components...); file systems built with Options{OSType, SystemDirs: [<root>tmp 0777]}, umask 022): (i) breadth-first search to depth %d over distinct tree states (at most %d) with EVERY template call in each state (22 single-path calls x every candidate path [existing, child a/b of every directory, below a file or symlink, missing parent], 4 portable symlink targets, Rename existing x candidate, Link file x candidate, Getwd, SetUMask): %d (state, call) pairs over %d states; (ii) %d random state-aware histories of up to %d calls (%d calls). Each history runs on memfs/linux, memfs/windows (both compared with the Coq model, results and exact + normalised snapshots) and orefafs/linux, orefafs/windows; the two OS types of each file system are compared call by call on success/failure and on the normalised tree", depth, maxStates, pairs, states, nh, hl, calls)
-	o.extra["evaluations"] = (pairs + nh) * 2
+	o.extra["evaluations"] = (pairs + nh) * 4
 	o.extra["portable_histories"] = pairs + nh
 	o.extra["bfs_pairs"] = pairs
 	o.extra["bfs_states"] = states
